@@ -26,23 +26,31 @@ PROPS = {
     },
     "C08": {
         "manifest": {
-            "technique": "machine-checked proof in Coq (XOR involution, PKCS7 and CBC round trips over an abstract invertible block cipher, layout and rejection theorems) + byte-for-byte model/implementation correspondence by vm_compute",
-            "text": "Eight theorems in coq/theories/Crypto*.v for all keys, all byte strings and all IVs: xor is its own inverse with the key repeated, unpad(pad p) = p, CBC decryption inverts CBC encryption for any block cipher with D(E b) = b, hence the AES provider round trip; ciphertext layout iv ++ body with |body| = 16(|p|/16+1); ciphertexts shorter than 32 bytes or not block-aligned are rejected; the recorded method is concrete. The model computes IV layout, padding and chaining itself and is compared byte for byte with encryption.py under a recorded os.urandom, with single-block AES results taken from cryptography's ECB primitive directly.",
-            "note": "Trusted: Coq kernel + vm_compute; the correspondence harness; the AES-256 block primitive enters as a hypothesis (inverse law) and as a per-case table; 'a different key never yields the plaintext' is cryptographic and only sampled. No axioms.",
+            "technique": "machine-checked proof in Coq (XOR involution, PKCS7 and CBC round trips, layout and rejection theorems; AES-256 written in Gallina with its inverse law proved for all keys and blocks, which discharges the block-cipher hypothesis) + byte-for-byte model/implementation correspondence by vm_compute",
+            "text": "Thirteen theorems in coq/theories/Crypto*.v and Aes*.v for all keys, all byte strings and all IVs: xor is its own inverse with the key repeated, unpad(pad p) = p, CBC decryption inverts CBC encryption for any block cipher with D(E b) = b; AES-256 (S-box, ShiftRows, MixColumns, AddRoundKey, key expansion, FIPS-197 byte order) satisfies D_k(E_k b) = b = E_k(D_k b) for every 32-byte key and every 16-byte block (S-box by 256 kernel-checked cases, MixColumns by XOR-linearity plus the one-coordinate columns, round structure by induction over any list of round keys), hence the AES provider round trip decrypt(encrypt p) = p with NO hypothesis about the block cipher; ciphertext layout iv ++ body with |body| = 16(|p|/16+1); ciphertexts shorter than 32 bytes or not block-aligned are rejected; the recorded method is concrete. The model computes IV layout, padding, chaining and the AES block function itself and is compared byte for byte with encryption.py under a recorded os.urandom (stream crypto); the Gallina block function is compared with cryptography's AES-ECB on FIPS-197 / SP 800-38A vectors, single-bit keys and blocks, all byte values and random pairs (stream aesblock).",
+            "note": "Trusted: Coq kernel + vm_compute; the correspondence harness. The AES-256 primitive is no longer assumed: its inverse law is a theorem about Aes.v. What remains assumed is that cryptography's AES is that FIPS-197 AES-256, which the aesblock stream samples (known answers + random blocks) and the crypto stream exercises on every case; 'a different key never yields the plaintext' is cryptographic and only sampled. No axioms.",
             "design_ref": "DESIGN.md section 6 C08"},
-        "streams": ["crypto", "securevalues", "keyfile"],
+        "streams": ["crypto", "aesblock", "securevalues", "keyfile"],
         # of the key-file stream (C07) the C08 clause: across sessions and provider objects the cipher uses the session's key
         "stream_filters": {"keyfile": r"cipher result was not computed with the key"},
         "witnesses": [],
-        "rule": ("deterministic matrix (2 keys x 4 methods x 12 boundary plaintext lengths) plus seeded random cases: "
+        "rule": ("crypto: deterministic matrix (2 keys x 4 methods x 12 boundary plaintext lengths) plus seeded random cases: "
                  "encryptions under a recorded IV and decryptions of valid / short / misaligned / bad-padding / "
-                 "foreign-key / garbage values; non-trivial = a real method (not the bogus one); distinct = distinct case"),
+                 "foreign-key / garbage values; non-trivial = a real method (not the bogus one); distinct = distinct case. "
+                 "aesblock: deterministic matrix (constant keys/blocks, FIPS-197 C.3 and SP 800-38A F.1.5 known answers in "
+                 "both directions, the 256 single-bit keys, the 128 single-bit blocks, the 256 constant-byte blocks) plus "
+                 "seeded random (key, block) pairs, both directions per case; distinct = distinct (key, block)"),
         "trusted_base": [KERNEL, "Print Assumptions: closed under the global context (no axioms)", TIE, HARNESS,
-                         "modelled, not verified: the AES-256 block function (cryptography's primitive) enters the theorems as "
-                         "hypotheses D(E b) = b and |E b| = 16 and the correspondence as a per-case table of single-block "
-                         "results obtained from AES-ECB directly; os.urandom as a recorded value"],
+                         "modelled AND verified: the AES-256 block function is Gallina code (coq/theories/Aes.v) whose inverse "
+                         "law, output length and byte range are theorems (C08_aes_block_inverse, C08_aes_block_permutation); "
+                         "the S-box table is checked against its FIPS-197 definition (x^254 + affine map) inside Coq",
+                         "assumed, sampled: cryptography's AES (OpenSSL) computes FIPS-197 AES-256, i.e. the function of Aes.v "
+                         "-- compared byte for byte on every aesblock case and, through CBC, on every crypto case; "
+                         "os.urandom as a recorded value"],
         "assumptions": ["'a different key never yields the plaintext' is a cryptographic statement: sampled (foreign-key cases), not proved",
-                        "AES block primitive inverse law is assumed (hypothesis of C08_cbc_dec_enc / C08_aes_roundtrip)",
+                        "cryptography's AES primitive equals the verified Gallina AES-256 on all inputs: sampled (aesblock, crypto), not proved; "
+                        "the block-cipher inverse law itself is no longer an assumption (C08_aes_roundtrip_concrete has no hypothesis about E/D)",
+                        "theorems about the concrete cipher range over lists of bytes (entries < 256, bytes_ok): every Python bytes object is one",
                         "SecureField.to_python shape checks are covered with the fields stream (C05/C03), not here"],
     },
     "C18": {
